@@ -115,5 +115,3 @@ func runDistilCase(c J, ow *obsWriter) {
 	}
 	ow.emit(obs)
 }
-func runHistories(cases []J, ow *obsWriter)  { die(2, "hist mode not built yet") }
-func runConcurrent(cases []J, ow *obsWriter) { die(2, "conc mode not built yet") }
